@@ -7,7 +7,10 @@ HARNESS = os.path.join(ROOT, "harness")
 BUILD = os.path.join(ROOT, "_build")
 BIN = os.path.join(BUILD, "bin")
 REPO = os.environ.get("VERIF_REPO", "/repo")
-EVID = os.path.join(ROOT, "evidence")
+# evidence/ holds what the checks found on /repo as it is; the self-test tools (tools/mutcheck.sh,
+# mutants_matrix.py, harmless_matrix.py), which run the same checks on a deliberately modified
+# working tree, redirect their evidence to a scratch directory
+EVID = os.environ.get("VERIF_EVIDENCE_DIR") or os.path.join(ROOT, "evidence")
 
 GOENV = dict(os.environ, GOFLAGS="-mod=mod", GOPROXY="off", GOSUMDB="off",
              GOTOOLCHAIN="local", CGO_ENABLED=os.environ.get("CGO_ENABLED", "1"))
